@@ -320,7 +320,7 @@ class World:
             self.ct.close()
         except Exception:  # noqa: BLE001
             pass
-        self.th.join(3.0)
+        self.th.join(20.0)
         stuck = self.th.is_alive()
         if not stuck:
             try:
